@@ -48,19 +48,19 @@ impl Key {
 //@end
 }
 impl Prefix {
-//@extract src/key.rs | impl Prefix | all
+//@extract-optional src/key.rs | impl Prefix | all
 //@spec
     ensures r.index == index, r.mode is None
 //@end
-//@extract src/key.rs | impl Prefix | item
+//@extract-optional src/key.rs | impl Prefix | item
 //@spec
     ensures r.index == index, r.mode == Some(NodeMode::Item)
 //@end
-//@extract src/key.rs | impl Prefix | tree
+//@extract-optional src/key.rs | impl Prefix | tree
 //@spec
     ensures r.index == index, r.mode == Some(NodeMode::Tree)
 //@end
-//@extract src/key.rs | impl Prefix | updated
+//@extract-optional src/key.rs | impl Prefix | updated
 //@spec
     ensures r.index == index, r.mode == Some(NodeMode::Updated)
 //@end
